@@ -406,12 +406,18 @@ func (s *MemoryStore) RevokeRefreshToken(ctx context.Context, requestID string) 
 }
 
 func (s *MemoryStore) RevokeAccessToken(ctx context.Context, requestID string) error {
+	// Same lock order as in CreateAccessTokenSession: request-id index first, then the table.
 	s.accessTokenRequestIDsMutex.RLock()
 	defer s.accessTokenRequestIDsMutex.RUnlock()
+	s.accessTokensMutex.Lock()
+	defer s.accessTokensMutex.Unlock()
 
-	if signature, exists := s.AccessTokenRequestIDs[requestID]; exists {
-		if err := s.DeleteAccessTokenSession(ctx, signature); err != nil {
-			return err
+	// Several access tokens can carry the same request id (the hybrid flow issues one at the authorization
+	// endpoint and another one when the code is redeemed) while the index remembers only the latest signature,
+	// so every token of the request is removed, not only the indexed one.
+	for signature, req := range s.AccessTokens {
+		if req.GetID() == requestID {
+			delete(s.AccessTokens, signature)
 		}
 	}
 	return nil
